@@ -27,8 +27,10 @@ pub enum Bad {
     /// density rule fails at its fourth block
     GtDensity,
     UnknownParent,
+    /// id does not continue the parent's (re-signed, so only the continuity rule can refuse it)
+    WrongId,
 }
-pub const KINDS: [Bad; 9] = [
+pub const KINDS: [Bad; 10] = [
     Bad::GtDensity,
     Bad::UnknownParent,
     Bad::SignedField,
@@ -38,6 +40,7 @@ pub const KINDS: [Bad; 9] = [
     Bad::MerkleAppend,
     Bad::UnsignedField,
     Bad::Timestamp,
+    Bad::WrongId,
 ];
 
 /// re-parent `child` onto `new_parent` (hash changed by an edit): retarget its golden ticket,
@@ -92,6 +95,10 @@ pub fn make_bad(w: &World, honest: &Block, kind: Bad, spent_tx: &saito_core::cor
         Bad::GtDensity => {}
         Bad::UnknownParent => {
             b.previous_block_hash = [0x77; 32];
+            b.sign(&w.creator.private);
+        }
+        Bad::WrongId => {
+            b.id += 5;
             b.sign(&w.creator.private);
         }
         Bad::Timestamp => {
